@@ -219,6 +219,7 @@ type SyncOp struct {
 	enabled func() bool
 	read    bool // read-mode op: independent of other read-mode ops on the same object
 	pos     string
+	tpos    token.Pos
 }
 
 func (g *Engine) newExec(harness string, trail []int, s *Solver) *Exec {
@@ -602,7 +603,7 @@ func (e *Exec) newThread(name string, start func(t *Thread)) *Thread {
 func (t *Thread) visible(op *SyncOp) {
 	e := t.e
 	if t.inMon || t.id < 0 {
-		panic(pathAbort{"fatal", "visible operation " + op.kind + " inside vMon/vBlockUntil body at " + op.pos})
+		panic(pathAbort{"fatal", "visible operation " + op.kind + " inside vMon/vBlockUntil body at " + t.posOf(op.tpos)})
 	}
 	if !e.multi && op.enabled() && op.kind != "quiesce" {
 		return // single-threaded fast path: nothing to interleave with
@@ -737,7 +738,7 @@ func (e *Exec) schedLoop(main *Thread) {
 			var desc []string
 			for _, t := range e.threads {
 				if !t.done && t.op != nil {
-					desc = append(desc, fmt.Sprintf("T%d:%s@%s", t.id, t.op.kind, t.op.pos))
+					desc = append(desc, fmt.Sprintf("T%d:%s@%s", t.id, t.op.kind, t.opPos()))
 				}
 			}
 			if m, ok := e.modelNow(nil); ok {
@@ -792,7 +793,7 @@ func (e *Exec) symmetryReduce(c []*Thread) []*Thread {
 	seen := map[string]bool{}
 	for _, t := range c {
 		if t.op != nil && t.op.kind == "select" && t.fresh() {
-			k := fmt.Sprintf("%p@%s", t.op.obj, t.op.pos)
+			k := fmt.Sprintf("%p@%s", t.op.obj, t.opPos())
 			if seen[k] {
 				continue
 			}
@@ -886,13 +887,13 @@ func (t *Thread) accessCell(c *Cell, write bool, pos token.Pos) {
 		if c.harness {
 			// unsynchronised access to harness monitor state is a harness bug, not a finding
 			if e.abort == nil {
-				e.abort = &pathAbort{"fatal", fmt.Sprintf("harness monitor state accessed without vMon: %s vs %s", other.pos, t.posOf(pos))}
+				e.abort = &pathAbort{"fatal", fmt.Sprintf("harness monitor state accessed without vMon: %s vs %s", t.posOf(other.pos), t.posOf(pos))}
 			}
 			panic(*e.abort)
 		}
 		m, ok := e.modelNow(nil)
 		if ok {
-			a, b := other.pos, t.posOf(pos)
+			a, b := t.posOf(other.pos), t.posOf(pos)
 			e.violation(kind, "race:"+a+"~"+b, fmt.Sprintf("data race (%s): T%d at %s vs T%d at %s", what, other.tid, a, t.id, b), m)
 		}
 	}
@@ -906,7 +907,7 @@ func (t *Thread) accessCell(c *Cell, write bool, pos token.Pos) {
 			}
 		}
 		c.reads = c.reads[:0]
-		c.lastW = epoch{t.id, me, t.posOf(pos)}
+		c.lastW = epoch{t.id, me, pos}
 	} else {
 		for i, r := range c.reads {
 			if r.tid == t.id {
@@ -914,7 +915,7 @@ func (t *Thread) accessCell(c *Cell, write bool, pos token.Pos) {
 				return
 			}
 		}
-		c.reads = append(c.reads, epoch{t.id, me, t.posOf(pos)})
+		c.reads = append(c.reads, epoch{t.id, me, pos})
 	}
 }
 
@@ -954,3 +955,13 @@ func (e *Exec) checkGuard(t *Thread, c *Cell, write bool, pos token.Pos) {
 }
 
 var errorType = types.Universe.Lookup("error").Type()
+
+func (t *Thread) opPos() string {
+	if t.op == nil {
+		return "?"
+	}
+	if t.op.pos != "" {
+		return t.op.pos
+	}
+	return t.posOf(t.op.tpos)
+}
